@@ -237,16 +237,30 @@ def run(ck, replay=None):
     sysmon = sl.sysmon_bin()
     fd = Feeder(ck)
     tmp = tempfile.mkdtemp(prefix="c16-")
+    import atexit
+    import shutil
+    atexit.register(shutil.rmtree, tmp, True)
+    os.environ["C16_TMP"] = tmp  # harness scratch (socket paths, descriptor files) lives below the run's temp dir
     asan_env = vlib.base_env({"C16_ASAN": "1", "ASAN_OPTIONS": "detect_leaks=0:allocator_may_return_null=1"})
 
     if replay:
         with open(replay) as f:
             rp = json.load(f)
-        spec = (rp.get("detail") or {}).get("replay")
-        if spec:
+        det = rp.get("detail") or {}
+        spec = det.get("replay") or (det.get("case") or {}).get("replay")
+        if spec and str(spec).startswith("stream:"):
+            _, shard, cid, mode = spec.split(":")
             for d, lab in ((dbg, "debug"), (rel, "release")):
-                fd.feed(vlib.run_one([d + "/fdpass", "run", str(seed), "1", "only=" + spec], timeout=120), "replay fdpass " + lab)
-            return "replay of one fd-passing case"
+                fd.feed(vlib.run_one([d + "/xfer", "stream", shard, str(int(cid) + 1), "mode=" + mode, "only=" + cid], timeout=300),
+                        "replay transfer " + lab, expect_rc=(0, 3))
+                ck.note_distinct("replay/stream/" + lab)
+            return "replay of one transfer case (same shard seed and case id)"
+        if spec:
+            for d, lab, env in ((dbg, "debug", None), (rel, "release", None), (asan, "asan", asan_env)):
+                fd.feed(vlib.run_one([d + "/fdpass", "run", str(seed), "1", "only=" + spec], env=env, timeout=120), "replay fdpass " + lab)
+                ck.note_distinct("replay/fdpass/" + lab)
+            return "replay of one fd-passing case in the debug, release and ASan builds"
+        ck.note_inconclusive("replay file carries no case specification; running the normal tier")
 
     jobs = []  # (label, kind, kwargs)
 
@@ -254,19 +268,19 @@ def run(ck, replay=None):
         jobs.append((label, kind, kw))
 
     # --- streams
-    nthr_shards, thr_cases = (16, 10) if quick else (32, 60)
+    nthr_shards, thr_cases = (32, 50) if quick else (64, 600)
     for i in range(nthr_shards):
         d, lab = (dbg, "debug") if i % 2 == 0 else (rel, "release")
         add("xfer threads %s shard %d" % (lab, i), "plain",
             argv=[d + "/xfer", "stream", str(seed * 1000 + i), str(thr_cases), "mode=threads"], timeout=300 if quick else 1500)
-    nproc_shards, proc_cases = (8, 6) if quick else (16, 40)
+    nproc_shards, proc_cases = (16, 30) if quick else (32, 300)
     for i in range(nproc_shards):
         d, lab = (dbg, "debug") if i % 2 == 0 else (rel, "release")
         add("xfer procs %s shard %d" % (lab, i), "plain",
             argv=[d + "/xfer", "stream", str(seed * 1000 + 500 + i), str(proc_cases), "mode=procs"], timeout=300 if quick else 1500)
     # --- timeouts
-    add("timeouts debug", "plain", argv=[dbg + "/xfer", "timeouts", str(seed), "1" if quick else "6"], timeout=600)
-    add("timeouts release", "plain", argv=[rel + "/xfer", "timeouts", str(seed + 1), "1" if quick else "6"], timeout=600)
+    add("timeouts debug", "plain", argv=[dbg + "/xfer", "timeouts", str(seed), "1" if quick else "6"], timeout=120 if quick else 600)
+    add("timeouts release", "plain", argv=[rel + "/xfer", "timeouts", str(seed + 1), "1" if quick else "6"], timeout=120 if quick else 600)
     add("edge observations", "plain", argv=[rel + "/xfer", "edge", str(seed), "1"], timeout=120)
     # --- try-variants under sysmon
     for i, (d, lab) in enumerate(((dbg, "debug"), (rel, "release"))):
@@ -282,19 +296,23 @@ def run(ck, replay=None):
                                      "transport=" + tr, "maxlen=%d" % (4 << 20), "profile=retry"], timeout_s=300, idle_ms=0, sysmon=sysmon),
             timeout=400)
     # --- fd passing
-    nfd_shards, fd_cases = (4, 60) if quick else (8, 1500)
+    nfd_shards, fd_cases = (8, 400) if quick else (16, 20000)
     for i in range(nfd_shards):
         add("fdpass debug %d" % i, "plain", argv=[dbg + "/fdpass", "run", str(seed * 31 + i), str(fd_cases)], timeout=900)
         add("fdpass release %d" % i, "plain", argv=[rel + "/fdpass", "run", str(seed * 37 + i), str(fd_cases)], timeout=900)
-    nas_shards, as_cases = (8, 8) if quick else (16, 60)
+    nas_shards, as_cases = (16, 25) if quick else (32, 300)
     for i in range(nas_shards):
         add("fdpass asan %d" % i, "plain", argv=[asan + "/fdpass", "run", str(seed * 41 + i), str(as_cases)],
             env=asan_env, timeout=900)
     # --- Miri on the pure iterator
-    for i in range(4 if quick else 12):
-        argv, env, cwd = vlib.miri_cmd(CRATE, "h_sock-miri", "cmsg_miri", ["run", seed * 13 + i, 4 if quick else 10],
+    for i in range(6 if quick else 16):
+        argv, env, cwd = vlib.miri_cmd(CRATE, "h_sock-miri", "cmsg_miri", ["run", seed * 13 + i, 5 if quick else 12],
                                        ["-Zmiri-permissive-provenance", "-Zmiri-seed=%d" % (seed % 1000 + i)])
-        add("miri cmsg %d" % i, "miri", argv=argv, env=env, cwd=cwd, timeout=1500)
+        if i % 2 == 1:
+            # release profile = no overflow checks: the iterator runs on past the data instead of panicking
+            k = argv.index("run")
+            argv = argv[:k + 1] + ["--release"] + argv[k + 1:]
+        add("miri cmsg %d%s" % (i, " (no overflow checks)" if i % 2 == 1 else ""), "miri", argv=argv, env=env, cwd=cwd, timeout=1500)
 
     # Miri first (slowest), then the rest
     jobs.sort(key=lambda j: 0 if j[1] == "miri" else 1)
@@ -303,10 +321,8 @@ def run(ck, replay=None):
     retry_total = {}
     for (label, kind, kw), res in zip(jobs, results):
         if kind == "plain":
-            if fd.feed(res, label):
+            if fd.feed(res, label, expect_rc=(0, 3)):
                 ck.note_distinct("engine/" + re.sub(r"\s+\d+$", "", label.replace(" shard", "")).replace(" ", "-"))
-            elif res["rc"] == 3:
-                pass  # the monitor reported a violation and ended the process on purpose
         elif kind == "trylog":
             ok = fd.feed(res, label)
             if not os.path.exists(kw["log"]):
@@ -327,15 +343,7 @@ def run(ck, replay=None):
     if retry_total and not (retry_total.get("ppoll_after_read") and retry_total.get("ppoll_after_write")):
         ck.note_inconclusive("traced transfers did not exercise both EAGAIN->ppoll directions: %s" % retry_total)
     # fold the many observations of one defect family into few replay files: vlib dedups by signature
-    for f in os.listdir(tmp):
-        try:
-            os.unlink(os.path.join(tmp, f))
-        except OSError:
-            pass
-    try:
-        os.rmdir(tmp)
-    except OSError:
-        pass
+    shutil.rmtree(tmp, ignore_errors=True)
     ck.exhaustive = False
     ck.assume("timeouts: only 'Timeout earlier than the requested limit' refutes; elapsed measured on std::time::Instant started before the call")
     ck.assume("'completes when the peer acts' is refuted only by state: harness poll shows the awaited readiness, /proc/<tid>/syscall shows the thread inside ppoll, call sequence number unchanged over 5 samples")
